@@ -20,6 +20,18 @@ theorems of `Props/C17.lean` are about those definitions at ℝ) AND corresponde
       registrations = scipy, setting closures / `sample_from_prior` per registration, exact MLL adds every term;
   (4) priors: closures, `sample_from_prior`, `log_prob` vs scipy.stats, vs the Lean `Float` formulas, vs the
       density documented in the class docstring, numerical normalisation where claimed.
+Wave 3:
+  (3c) ONE `initialize(**kwargs)` call with several names (plain + dotted, up to four levels, `nn.ModuleList` indices, >= 2
+      names below one direct child, repeated targets, an out-of-bounds value / unknown name in the middle) on 9 module
+      trees; specification = the pairs applied one by one directly on the owning module; the same tree and kwargs run
+      through the program REGENERATED from `Module.initialize` (translator `g5_initialize`, `Gen/InitDispatch.lean`) and
+      through `initFold` in the Lean driver (theorem `gen_initialize_eq_fold`);
+  (4c) prior hyper-parameters changed after construction: load through the owner / grand-parent kernel / likelihood /
+      ExactGP / plain nn.Module / nn.ModuleList (strict or not, via torch.save), `Prior.load_state_dict`, attribute
+      assignment, combined with dtype moves, deepcopy, pickle before / after; then state dict = public attributes =
+      the hyper-parameters the density (scipy + Lean Float) and the samples use;
+  (4d) MultivariateNormalPrior / LKJCholeskyFactorPrior against the exact models of `Model/MatrixPriors.lean` run in ℚ by
+      `drivers/C17mat.lean` (logs by mpmath), incl. the exponent table of the implementation read off the gradient at I.
 """
 import inspect
 import math
@@ -34,14 +46,22 @@ from lib import common as C
 ID = "C17"
 PROP_MODULES = ["GPVerif.Props.C17"]
 BUILD_TARGETS = ["GPVerif.Props.C17", "GPVerif.Gen.Constraints", "GPVerif.Gen.Priors", "GPVerif.Gen.InitDispatch",
-                 "GPVerif.Model.ParamStore", "GPVerif.Model.Priors"]
+                 "GPVerif.Model.ParamStore", "GPVerif.Model.Priors", "GPVerif.Model.MatrixPriors"]
 RULE = ("(a) transform sweeps: 4 constraint classes x scalar/tensor bounds x {special values over the whole finite float "
         "range, random}; distinct = (class, bounds, x-bucket); (b) every constructible class of kernels/likelihoods/means "
         "__all__ x every constrained parameter x {default, 4 replaced constraints}: setter/oob/history; distinct = "
         "(class, parameter, constraint kind, op); (c) every prior class of gpytorch.priors x random parameters/points; "
-        "non-trivial = the case exercises a transform, a bound check or a density")
+        "non-trivial = the case exercises a transform, a bound check or a density; "
+        "(d) multi-name initialize: 9 module trees x 7 kwargs patterns x random names/values; distinct = (tree, pattern, #names, "
+        "depth, names below one child); (e) prior reload: 8 scalar prior families + MVN x 7 hosts x pre/load/post operations; "
+        "distinct = (prior, host, pre, load, post); (f) matrix priors: constructor form x dimension, LKJ n x eta class")
 EXHAUSTIVE = False
 TRUSTED = ["translator harness/translate/g5_constraints.py (Python ast -> Gen/Constraints.lean)",
+           "translator harness/translate/g5_initialize.py (Module.initialize -> Gen/InitDispatch.lean; the leaf chain is one "
+           "statement, prior-support validation a no-op of the store model)",
+           "mpmath (40 digits) for the logarithms of the exact rational pieces of the matrix-prior densities; torch autograd "
+           "to read the LKJ exponent table off log_prob at the identity",
+           "modelled not verified: nn.Module.load_state_dict / _apply / deepcopy / pickle moving prior buffers",
            "modelled not verified: torch.sigmoid, torch.nn.Softplus (incl. its threshold=20 shortcut), torch.log/expm1, "
            "torch.distributions log_prob of Normal/HalfNormal/LogNormal/Uniform/HalfCauchy/Gamma/LKJCholesky",
            "scipy.stats reference densities, scipy.integrate.quad (normalisation)",
@@ -1061,13 +1081,28 @@ def _param_state(params):
 
 
 def _apply_kwargs(root, kwargs, one_by_one):
-    """One `initialize(**kwargs)` call, or the fold of the single-name calls (the specification); returns raised."""
+    """One `initialize(**kwargs)` call — or the SPECIFICATION: the pairs applied one after the other, each directly on the
+    module that owns the name (the owner is found by walking the attributes / ModuleList indices, so the dotted-name
+    dispatch of `initialize` is not used), stopping at the first rejection.  Returns None or the exception text."""
+    import torch
+    import gpytorch
     try:
         with warnings.catch_warnings():
             warnings.simplefilter("ignore")
             if one_by_one:
                 for k, v in kwargs.items():
-                    root.initialize(**{k: v})
+                    *path, leaf = k.split(".")
+                    owner = root
+                    for seg in path:
+                        if isinstance(owner, torch.nn.ModuleList):
+                            owner = owner[int(seg)]
+                        elif seg in owner._modules:
+                            owner = owner._modules[seg]
+                        else:
+                            raise AttributeError(f"no sub-module {seg!r}")
+                    if not isinstance(owner, gpytorch.Module):
+                        raise AttributeError(f"{type(owner).__name__} has no initialize")
+                    owner.initialize(**{leaf: v})
             else:
                 root.initialize(**kwargs)
         return None
@@ -1554,6 +1589,253 @@ def sweep_prior_reload(ctx, rng):
                 import traceback
                 ctx.broke("correspondence", f"prior-reload:{fname}:{host}", traceback.format_exc())
     return lean_lines, lean_recs
+
+
+# ------------------------------------------------------------------ (4d) matrix-valued priors against the exact models
+
+def _mp_log_frac(fr):
+    import mpmath as mp
+    return mp.log(mp.mpf(fr.numerator)) - mp.log(mp.mpf(fr.denominator))
+
+
+def _parse_fields(rep):
+    return dict(f.split("=", 1) for f in rep.split(";"))
+
+
+def _rand_tril(rng, d, den=16):
+    import torch
+    L = torch.zeros(d, d, dtype=torch.float64)
+    for i in range(d):
+        for j in range(i):
+            L[i, j] = rng.randint(-den, den) / den
+        L[i, i] = rng.randint(den // 2, 2 * den) / den
+    return L
+
+
+def _mvn_case(rng, d):
+    import torch
+    L = _rand_tril(rng, d)
+    loc = torch.tensor([rng.randint(-32, 32) / 16 for _ in range(d)], dtype=torch.float64)
+    return loc, L
+
+
+def _mvn_build(loc, L, how):
+    import torch
+    from gpytorch.priors import MultivariateNormalPrior
+    if how == "scale_tril":
+        return MultivariateNormalPrior(loc.clone(), scale_tril=L.clone())
+    if how == "covariance_matrix":
+        return MultivariateNormalPrior(loc.clone(), covariance_matrix=L @ L.T)
+    return MultivariateNormalPrior(loc.clone(), precision_matrix=torch.linalg.inv(L @ L.T))
+
+
+def _mvn_host(prior, d):
+    import gpytorch
+    k = gpytorch.kernels.RBFKernel(ard_num_dims=d)
+    k.register_prior("lengthscale_prior", prior, "lengthscale")
+    return gpytorch.kernels.ScaleKernel(k)
+
+
+def _mvn_exact_request(prior, v):
+    """Driver request for the density the prior's CURRENT buffers define, at the point v."""
+    Lb = prior.state_dict()["_unbroadcasted_scale_tril"].double()
+    mu = prior.state_dict()["loc"].double()
+    return f"M {C.mat_tokens(Lb)} {C.vec_tokens(mu)} {C.vec_tokens(v)}"
+
+
+def run_mvn_reload_case(ctx, d, how1, how2, pre, load, case1, case2, v, lines=None, recs=None):
+    """MultivariateNormalPrior registered on an ARD lengthscale: build (h1) -> pre-op -> parent load of (h2) -> the prior must
+    be N(loc2, L2 L2ᵀ): buffers, public (lazy) attributes, log density (exact model through the driver)."""
+    import torch
+    t64 = lambda z: torch.tensor(z, dtype=torch.float64)
+    (loc1, L1), (loc2, L2) = (t64(case1[0]), t64(case1[1])), (t64(case2[0]), t64(case2[1]))
+    root = _mvn_host(_mvn_build(loc1, L1, how1), d).double()
+    src = _mvn_host(_mvn_build(loc2, L2, how2), d).double()
+    pr = root.base_kernel.lengthscale_prior
+    how = (pre + "+" if pre != "none" else "") + load
+    rp = {"kind": "mvn-reload", "d": d, "how1": how1, "how2": how2, "pre": pre, "load": load, "case1": case1, "case2": case2, "v": v}
+
+    def read_attrs(tag):
+        out = {}
+        for a in ("loc", "scale_tril", "covariance_matrix", "precision_matrix"):
+            try:
+                out[a] = getattr(pr, a).detach().clone()
+            except RecursionError:
+                ctx.fail(f"prior-attr:MultivariateNormalPrior:{a}", f"MultivariateNormalPrior built with {how1 if tag == 'pre' else how2}=…: "
+                         f"reading prior.{a} raises RecursionError", dict(rp, attr=a))
+                out[a] = None
+        return out
+    if pre == "used":
+        read_attrs("pre")
+        pr.log_prob(t64(v))
+    elif pre == "dtype-move":
+        root = root.float().double()
+        pr = root.base_kernel.lengthscale_prior
+    sd = {k_: v_.clone() for k_, v_ in src.state_dict().items()}
+    if load == "parent.load_state_dict":
+        root.load_state_dict(sd)
+    elif load == "prior.load_state_dict":
+        pfx = "base_kernel.lengthscale_prior."
+        pr.load_state_dict({k_[len(pfx):]: v_ for k_, v_ in sd.items() if k_.startswith(pfx)})
+    key = f"prior-reload:MultivariateNormalPrior:{how}"
+    Lb, mub = pr.state_dict()["_unbroadcasted_scale_tril"], pr.state_dict()["loc"]
+    src_pr = src.base_kernel.lengthscale_prior
+    if not (torch.equal(Lb, src_pr.state_dict()["_unbroadcasted_scale_tril"]) and torch.equal(mub, src_pr.state_dict()["loc"])):
+        ctx.fail(key, f"after {how} the state dict of the prior does not hold the loaded loc / scale_tril", rp)
+        return False
+    ok = True
+    attrs = read_attrs("post")
+    Sig = Lb @ Lb.T
+    want = {"loc": mub, "scale_tril": Lb, "covariance_matrix": Sig, "precision_matrix": torch.linalg.inv(Sig)}
+    for a, got in attrs.items():
+        if got is None:
+            ok = False
+        elif not torch.allclose(got, want[a], rtol=1e-9, atol=1e-12):
+            ok = False
+            ctx.fail(key, f"MultivariateNormalPrior ({how1} -> {how2}): after {how} the state dict holds loc {mub.tolist()}, scale_tril "
+                     f"{Lb.tolist()} but prior.{a} = {got.tolist()} (expected {want[a].tolist()})", dict(rp, attr=a))
+    got_lp = pr.log_prob(t64(v)).item()
+    got_reg = pr.log_prob(root.base_kernel.lengthscale.detach()).sum().item()
+    if lines is not None:
+        lines.append(_mvn_exact_request(pr, t64(v)))
+        recs.append(("mvn", key, got_lp, d, dict(rp)))
+        lines.append(_mvn_exact_request(pr, root.base_kernel.lengthscale.detach().flatten()))
+        recs.append(("mvn", key, got_reg, d, dict(rp, point="registered lengthscale")))
+    return ok
+
+
+def sweep_matrix_priors(ctx, rng):
+    """MultivariateNormalPrior and LKJCholeskyFactorPrior against the exact models of `Model/MatrixPriors.lean` (driver C17mat, ℚ)."""
+    import torch
+    from fractions import Fraction
+    from gpytorch import priors as P
+    lines, recs = [], []
+    reps = 4 if ctx.quick else 25
+    # --- MultivariateNormalPrior: fresh, every constructor form, dimensions 1..4
+    for rep in range(reps):
+        for how in ("scale_tril", "covariance_matrix", "precision_matrix"):
+            d = rng.choice([1, 2, 3, 4])
+            loc, L = _mvn_case(rng, d)
+            pr = _mvn_build(loc, L, how)
+            Lb = pr.state_dict()["_unbroadcasted_scale_tril"]
+            res = (Lb @ Lb.T - L @ L.T).abs().max().item() / (L @ L.T).abs().max().item()
+            if res > 1e-12:
+                ctx.assumption(f"torch cholesky / inverse: MultivariateNormalPrior({how}=...) stores a factor with relative residual {res:.1e}")
+            for _ in range(2):
+                v = torch.tensor([rng.gauss(0, 2) for _ in range(d)], dtype=torch.float64)
+                ctx.case(f"PM:mvn:{how}:d{d}", sample={"prior": "MultivariateNormalPrior", "how": how, "d": d})
+                lines.append(_mvn_exact_request(pr, v))
+                recs.append(("mvn", "prior:MultivariateNormalPrior/log_prob", pr.log_prob(v).item(), d,
+                             {"kind": "prior", "prior": "MultivariateNormalPrior", "how": how, "loc": loc.tolist(), "L": L.tolist(), "x": v.tolist()}))
+    # --- MultivariateNormalPrior: reload histories (class of C17-8) incl. the lazily cached public attributes
+    for rep in range(reps):
+        d = rng.choice([2, 3])
+        c1, c2 = _mvn_case(rng, d), _mvn_case(rng, d)
+        how1, how2 = rng.choice(["scale_tril", "covariance_matrix", "precision_matrix"]), rng.choice(["scale_tril", "covariance_matrix"])
+        pre = rng.choice(["none", "used", "used", "dtype-move"])
+        load = rng.choice(["parent.load_state_dict", "parent.load_state_dict", "prior.load_state_dict"])
+        v = [rng.gauss(0, 2) for _ in range(d)]
+        ctx.case(f"PM:mvn-reload:{how1}:{how2}:{pre}:{load}")
+        ctx.count("mvn_prior_reload_cases")
+        try:
+            run_mvn_reload_case(ctx, d, how1, how2, pre, load, [c1[0].tolist(), c1[1].tolist()], [c2[0].tolist(), c2[1].tolist()], v, lines, recs)
+        except Exception:
+            import traceback
+            ctx.broke("correspondence", "mvn-prior-reload", traceback.format_exc())
+    # --- LKJCholeskyFactorPrior: exponent table (exact) and density as a function of the diagonal
+    etas = [0.5, 0.75, 1.0, 1.5, 2.0, 2.5, 3.25]
+    for n in (2, 3, 4, 5) if ctx.quick else (2, 3, 4, 5, 6, 7):
+        for rep in range(2 if ctx.quick else 8):
+            dyadic = rep % 2 == 0 or rng.random() < 0.5
+            eta = rng.choice(etas + [rng.randint(3, 40) / 8]) if dyadic else rng.uniform(0.3, 4.0)
+            try:
+                pr = P.LKJCholeskyFactorPrior(n, eta)
+            except Exception as e:
+                ctx.fail("prior:LKJCholeskyFactorPrior/constructor", f"LKJCholeskyFactorPrior({n}, {eta}) raised {type(e).__name__}: {str(e)[:120]}",
+                         {"kind": "prior", "prior": "LKJCholeskyFactorPrior", "params": [n, eta]})
+                continue
+            eye = torch.eye(n, dtype=torch.float64, requires_grad=True)
+            g, = torch.autograd.grad(pr.log_prob(eye), eye)
+            table = g.diagonal()[1:].tolist()
+            offd = (g - torch.diag(g.diagonal())).abs().max().item() + abs(g[0, 0].item())
+            L0 = torch.linalg.cholesky(randcorr(rng, n))
+            L1 = torch.linalg.cholesky(randcorr(rng, n))
+            got = (pr.log_prob(L1) - pr.log_prob(L0)).item()
+            rp = {"kind": "prior", "prior": "LKJCholeskyFactorPrior", "params": [n, eta], "L0": L0.tolist(), "L1": L1.tolist()}
+            ctx.case(f"PM:lkj-chol:n{n}:{'dyadic' if dyadic else 'random'}-eta", sample={"prior": "LKJCholeskyFactorPrior", "n": n, "eta": eta})
+            if offd != 0.0:
+                ctx.fail("prior:LKJCholeskyFactorPrior/diagonal-only", f"LKJCholeskyFactorPrior({n}, {eta}).log_prob depends on entries other than "
+                         "the diagonal L_22..L_nn (gradient at the identity)", rp)
+            for Lx, tag in ((L0, 0), (L1, 1)):
+                lines.append(f"K {n} {C.rat_str(eta)} " + " ".join(C.rat_str(z) for z in Lx.diagonal()[1:].tolist()))
+                recs.append(("lkj", tag, table, got, dyadic, rp))
+    return lines, recs
+
+
+def compare_matrix_priors(ctx, recs, replies):
+    import mpmath as mp
+    from fractions import Fraction
+    mp.mp.dps = 40
+    pend = None
+    for rec, rep in zip(recs, replies):
+        if rec[0] == "mvn":
+            _, key, got, d, rp = rec
+            ctx.count("lean_matrix_prior_lines")
+            if rep == "singular" or rep == "bad-request":
+                ctx.broke("correspondence", "driver:C17mat:M", f"reply {rep!r} for {rp}")
+                continue
+            f = _parse_fields(rep)
+            qt, q, dt = Fraction(f["qtril"]), Fraction(f["quad"]), Fraction(f["det"])
+            diag = [Fraction(z) for z in f["diag"].split()]
+            prod = Fraction(1)
+            for z in diag:
+                prod *= z
+            if not (qt == q and dt == prod * prod and f["lower"] == "1"):
+                ctx.broke("correspondence", "model:mvn-prior-parts", f"scale_tril pieces {qt}, (Π diag)² {prod * prod} vs C10 pieces {q}, {dt} "
+                          f"(lower={f['lower']}): theorem mvn_prior_parts_correct says they agree")
+            l2pi = mp.log(2 * mp.pi)
+            want_tril = -(d * l2pi + mp.mpf(qt.numerator) / qt.denominator) / 2 - sum(_mp_log_frac(z) for z in diag)
+            want_c10 = -(mp.mpf(q.numerator) / q.denominator + _mp_log_frac(dt) + d * l2pi) / 2
+            want = float(want_tril)
+            if abs(float(want_c10) - want) > 1e-12 * (1 + abs(want)):
+                ctx.broke("correspondence", "model:mvn-prior-assembly", f"assembly through scale_tril {want!r} vs C10 closed form {float(want_c10)!r}")
+            if not abs(got - want) <= 1e-9 * (1 + abs(want)):
+                ctx.fail(key, f"MultivariateNormalPrior.log_prob = {got!r}; the density N(loc, L Lᵀ) of its own buffers (exact model: "
+                         f"‖L⁻¹(x−μ)‖² = {float(qt)!r}, det Σ = {float(dt)!r}) gives {want!r}", rp)
+        else:
+            _, tag, table, got, dyadic, rp = rec
+            ctx.count("lean_matrix_prior_lines")
+            f = _parse_fields(rep) if "exps=" in rep else None
+            if f is None:
+                ctx.broke("correspondence", "driver:C17mat:K", f"reply {rep!r}")
+                pend = None
+                continue
+            exps = [Fraction(z) for z in f["exps"].split()]
+            n, eta = rp["params"]
+            diag = (rp["L0"] if tag == 0 else rp["L1"])
+            dvals = [Fraction(diag[i][i]) for i in range(1, n)]
+            logu = sum(mp.mpf(e.numerator) / e.denominator * _mp_log_frac(z) for e, z in zip(exps, dvals))
+            dens = None if f["dens"] == "N" else Fraction(f["dens"])
+            if dens is not None and abs(float(_mp_log_frac(dens) - logu)) > 1e-25:
+                ctx.broke("correspondence", "model:lkj-unnormZ", f"n={n} eta={eta}: log of the rational density vs Σ e_i log L_ii")
+            if tag == 0:
+                # exponent table of the implementation (gradient of log_prob at the identity) vs the exact table
+                ok = len(table) == len(exps)
+                for a, e in zip(table, exps):
+                    if dyadic:
+                        ok = ok and Fraction(a) == e
+                    else:
+                        ok = ok and abs(a - float(e)) <= 4 * EPS * max(1.0, abs(float(e)))
+                if not ok:
+                    ctx.fail("prior:LKJCholeskyFactorPrior/exponent-table", f"LKJCholeskyFactorPrior({n}, {eta}): exponents of L_22..L_nn in log_prob are "
+                             f"{table}; documented n − i + 2(η − 1) = {[float(e) for e in exps]}", rp)
+                pend = logu
+            else:
+                want = float(logu - pend) if pend is not None else None
+                pend = None
+                if want is not None and not abs(got - want) <= 1e-9 * (1 + abs(want)):
+                    ctx.fail("prior:LKJCholeskyFactorPrior/lkj-cholesky-density", f"LKJCholeskyFactorPrior({n}, {eta}): log_prob(L1) − log_prob(L0) = "
+                             f"{got!r}; Π L_ii^(n−i+2(η−1)) gives {want!r}", rp)
 
 
 # ------------------------------------------------------------------ (4) priors
@@ -2048,21 +2330,35 @@ def observation_initialize_float(ctx):
         ctx.notes["initialize_raw_python_float"] = f"raises {type(e).__name__} (observation, outside the property text)"
 
 
+def _guarded(ctx, name, fn, default):
+    """A harness error inside one sweep is recorded as a broken tie; the other sweeps still run."""
+    try:
+        return fn()
+    except Exception:
+        import traceback
+        ctx.broke("correspondence", f"harness-error:{name}", traceback.format_exc())
+        return default
+
+
 def correspondence(ctx, want_driver=True):
     import torch
     torch.set_num_threads(2)
     torch.set_default_dtype(torch.float64)
+    E = ([], [])
     try:
-        tl, tr = sweep_transforms(ctx)
-        ml, mr = sweep_modules(ctx)
-        sweep_bound_changes(ctx, ctx.rng("bound-changes"))
-        sweep_aliasing(ctx, ctx.rng("aliasing"))
-        sweep_initial_values(ctx, ctx.rng("initial-values"))
-        il, ir = sweep_multi_initialize(ctx, ctx.rng("multi-initialize"))
-        pl, pr = sweep_priors(ctx)
-        rl, rr = sweep_prior_reload(ctx, ctx.rng("prior-reload"))
+        tl, tr = _guarded(ctx, "transforms", lambda: sweep_transforms(ctx), E)
+        ml, mr = _guarded(ctx, "modules", lambda: sweep_modules(ctx), E)
+        _guarded(ctx, "bound-changes", lambda: sweep_bound_changes(ctx, ctx.rng("bound-changes")), None)
+        _guarded(ctx, "aliasing", lambda: sweep_aliasing(ctx, ctx.rng("aliasing")), None)
+        _guarded(ctx, "initial-values", lambda: sweep_initial_values(ctx, ctx.rng("initial-values")), None)
+        il, ir = _guarded(ctx, "multi-initialize", lambda: sweep_multi_initialize(ctx, ctx.rng("multi-initialize")), E)
+        pl, pr = _guarded(ctx, "priors", lambda: sweep_priors(ctx), E)
+        rl, rr = _guarded(ctx, "prior-reload", lambda: sweep_prior_reload(ctx, ctx.rng("prior-reload")), E)
         pl, pr = pl + rl, pr + rr
+        xl, xr = _guarded(ctx, "matrix-priors", lambda: sweep_matrix_priors(ctx, ctx.rng("matrix-priors")), E)
         observation_initialize_float(ctx)
+        if want_driver and xl:
+            _guarded(ctx, "driver:C17mat", lambda: compare_matrix_priors(ctx, xr, C.run_driver("C17mat", xl)), None)
         if want_driver:
             n1, n2, n3 = len(tl), len(ml), len(il)
             lines = tl + ml + il + pl   # one driver start for all streams
@@ -2130,6 +2426,14 @@ def replay(ctx, payload):
         try:
             ok = run_prior_reload_case(sub, case["prior"], case["host"], case["pre"], case["load"], case["post"], case["h1"],
                                        case["h2"], case["xs"], case["seed"])
+        finally:
+            torch.set_default_dtype(torch.float32)
+        return bool(ok) and not sub.failures
+    if k == "mvn-reload":
+        sub = Ctx2()
+        torch.set_default_dtype(torch.float64)
+        try:
+            ok = run_mvn_reload_case(sub, case["d"], case["how1"], case["how2"], case["pre"], case["load"], case["case1"], case["case2"], case["v"])
         finally:
             torch.set_default_dtype(torch.float32)
         return bool(ok) and not sub.failures
